@@ -22,7 +22,6 @@ type predicate struct {
 	power       *big.Int // validators AT THE COMMIT'S INDICES of this set whose for-block entry is a genuine signature of (id, height, commit round)
 	quorum      bool
 	nonAbsent   *big.Int // diagnosis only: additionally the nil entries genuinely signed for nil
-	everyEntry  *big.Int // diagnosis only: power of every position that has any entry at all (absent included)
 	exactlyTwo3 bool
 }
 
@@ -32,12 +31,11 @@ type predicate struct {
 // the entry's timestamp) — id and h are the CALLER's, not the commit's own fields — and the power so collected must be
 // strictly more than two thirds of the set's total.
 func commitPredicate(vs *valSet, chain string, id types.BlockID, h uint64, c *types.Commit) predicate {
-	who, whoNil, whoAny := map[int]bool{}, map[int]bool{}, map[int]bool{}
+	who, whoNil := map[int]bool{}, map[int]bool{}
 	for i, cs := range c.Signatures {
 		if i >= vs.n() {
 			break
 		}
-		whoAny[i] = true
 		switch cs.BlockIDFlag {
 		case types.BlockIDFlagCommit:
 			if sigLenient(vs.vals[i].addr, signHash(chain, kproto.PrecommitType, h, c.Round, id, cs.Timestamp), cs.Signature) {
@@ -50,7 +48,7 @@ func commitPredicate(vs *valSet, chain string, id types.BlockID, h uint64, c *ty
 		}
 	}
 	p := vs.powerOf(who)
-	return predicate{power: p, quorum: vs.quorum(p), nonAbsent: vs.powerOf(whoNil), everyEntry: vs.powerOf(whoAny), exactlyTwo3: vs.exactlyTwoThirds(p)}
+	return predicate{power: p, quorum: vs.quorum(p), nonAbsent: vs.powerOf(whoNil), exactlyTwo3: vs.exactlyTwoThirds(p)}
 }
 
 // wellFormed: a commit every honest node would produce or relay for (vs, id, h): right size, height and id, a
@@ -421,19 +419,13 @@ func TestCommitVerify(t *testing.T) {
 		var err error
 		if callGuard(t, hist.text, func() { err = verifySet.set.VerifyCommit(chainID, argID, argH, c) }) {
 			err = fmt.Errorf("panic (known finding)")
-			classes["known-panic-short-signature"] = true
+			classes["known-panic"] = true
 		}
 		accepted := err == nil
 		p := commitPredicate(verifySet, chainID, argID, argH, c)
 		wf := wellFormed(verifySet, chainID, argID, argH, c)
 		if accepted && !p.quorum {
-			key := keyAcceptNoQuorum
-			switch {
-			case p.exactlyTwo3:
-				key = keyAcceptBoundary
-			case verifySet.quorum(p.nonAbsent) || verifySet.quorum(p.everyEntry):
-				key = keyAcceptNil
-			}
+			key := acceptKey(verifySet, p.power, p.nonAbsent)
 			ev.Violation(t, key, hist.text(), "VerifyCommit accepted, but the validators at the commit's indices that genuinely signed %s at h=%d r=%d hold %v of %v (non-absent %v)",
 				idName(argID), argH, c.Round, p.power, verifySet.total, p.nonAbsent)
 		}
@@ -471,6 +463,20 @@ func TestCommitVerify(t *testing.T) {
 			ev.Sample("commit", hist.text())
 		}
 	})
+}
+
+// acceptKey names what an unjustified acceptance looks like, when that is unambiguous: one unit of power short of a
+// quorum (a rounding / comparison slip), or a quorum only if nil/absent entries are counted as well.
+func acceptKey(vs *valSet, forBlock, withOthers *big.Int) string {
+	offByOne := vs.quorum(new(big.Int).Add(forBlock, big.NewInt(1)))
+	others := vs.quorum(withOthers)
+	switch {
+	case offByOne && !others:
+		return keyAcceptBoundary
+	case others && !offByOne:
+		return keyAcceptNil
+	}
+	return keyAcceptNoQuorum
 }
 
 func outsiderKey(vs *valSet) int {
